@@ -113,8 +113,12 @@ impl<'a, Key, Freq> FrequencyCounterBasedMinHeapSamples<'a, Key, Freq>
     pub(crate) fn min_frequency_key(&mut self) -> Option<SampledKey> {
         if let Some(key) = self.sample.pop() {
             self.current_sample_key_ids.remove(&key.id);
+            #[cfg(cached_verif)]
+            crate::cache::verif::log_oracle(crate::cache::verif::Oracle::Pop(Some(key.id)));
             return Some(key);
         }
+        #[cfg(cached_verif)]
+        crate::cache::verif::log_oracle(crate::cache::verif::Oracle::Pop(None));
         None
     }
 
@@ -124,10 +128,14 @@ impl<'a, Key, Freq> FrequencyCounterBasedMinHeapSamples<'a, Key, Freq>
     pub(crate) fn maybe_fill_in(&mut self) -> bool {
         let mut filled_in: bool = false;
         let mut iterator = self.source.iter();
+        #[cfg(cached_verif)]
+        let mut verif_order: Vec<u64> = Vec::new();
 
         while self.sample.len() < self.sample_size {
             match iterator.next() {
                 Some(pair) => {
+                    #[cfg(cached_verif)]
+                    verif_order.push(*pair.key());
                     if !self.current_sample_key_ids.contains(pair.key()) {
                         let frequency = (self.frequency_counter)(pair.key_hash);
                         self.current_sample_key_ids.insert(*pair.key());
@@ -140,6 +148,8 @@ impl<'a, Key, Freq> FrequencyCounterBasedMinHeapSamples<'a, Key, Freq>
                 }
             }
         }
+        #[cfg(cached_verif)]
+        crate::cache::verif::log_oracle(crate::cache::verif::Oracle::Order(verif_order));
         filled_in
     }
 
@@ -155,8 +165,12 @@ impl<'a, Key, Freq> FrequencyCounterBasedMinHeapSamples<'a, Key, Freq>
         let mut counter = 0;
         let mut sample = BinaryHeap::new();
         let mut current_sample_key_ids = HashSet::new();
+        #[cfg(cached_verif)]
+        let mut verif_order: Vec<u64> = Vec::new();
 
         for pair in source.iter().by_ref() {
+            #[cfg(cached_verif)]
+            verif_order.push(*pair.key());
             current_sample_key_ids.insert(*pair.key());
             sample.push(SampledKey::new(frequency_counter(pair.value().key_hash), pair));
             counter += 1;
@@ -165,6 +179,8 @@ impl<'a, Key, Freq> FrequencyCounterBasedMinHeapSamples<'a, Key, Freq>
                 break;
             }
         }
+        #[cfg(cached_verif)]
+        crate::cache::verif::log_oracle(crate::cache::verif::Oracle::Order(verif_order));
         (sample, current_sample_key_ids)
     }
 }
@@ -654,5 +670,66 @@ mod frequency_counter_based_min_heap_samples_tests {
         assert_eq!(2, sampled_key.estimated_frequency);
         assert_eq!(2, sampled_key.weight);
         assert_eq!(20, sampled_key.id);
+    }
+}
+
+#[cfg(cached_verif)]
+pub fn verif_sampled_key_cmp(a: (u64, Weight, FrequencyEstimate), b: (u64, Weight, FrequencyEstimate)) -> Ordering {
+    SampledKey::using(a.0, a.1, a.2).cmp(&SampledKey::using(b.0, b.1, b.2))
+}
+
+#[cfg(cached_verif)]
+impl CacheWeight<u64> {
+    /// (key id, key, key hash, weight), sorted by key id
+    pub(crate) fn verif_entries(&self) -> Vec<(u64, u64, u64, i64)> {
+        let mut entries: Vec<(u64, u64, u64, i64)> = self.key_weights.iter()
+            .map(|pair| (*pair.key(), pair.value().key, pair.value().key_hash, pair.value().weight)).collect();
+        entries.sort();
+        entries
+    }
+}
+
+/// Direct wrapper around the weight ledger and its sampler, for component-level correspondence.
+#[cfg(cached_verif)]
+pub struct VerifCacheWeight {
+    cache_weight: CacheWeight<u64>,
+    stats_counter: Arc<ConcurrentStatsCounter>,
+}
+
+#[cfg(cached_verif)]
+impl VerifCacheWeight {
+    pub fn new(capacity: usize, shards: usize, total_cache_weight: Weight) -> Self {
+        let stats_counter = Arc::new(ConcurrentStatsCounter::new());
+        VerifCacheWeight {
+            cache_weight: CacheWeight::new(CacheWeightConfig::new(capacity, shards, total_cache_weight), stats_counter.clone()),
+            stats_counter,
+        }
+    }
+    pub fn add(&self, key: u64, id: u64, hash: u64, weight: Weight) {
+        self.cache_weight.add(&KeyDescription::new(key, id, hash, weight));
+    }
+    pub fn update(&self, id: u64, weight: Weight) -> bool { self.cache_weight.update(&id, weight) }
+    /// returns the key handed to the delete hook, if the id was charged
+    pub fn delete(&self, id: u64) -> Option<u64> {
+        let deleted = std::cell::Cell::new(None);
+        self.cache_weight.delete(&id, &|key| deleted.set(Some(key)));
+        deleted.get()
+    }
+    pub fn is_space_available_for(&self, weight: Weight) -> (Weight, bool) { self.cache_weight.is_space_available_for(weight) }
+    pub fn weight_used(&self) -> Weight { self.cache_weight.get_weight_used() }
+    pub fn weight_of(&self, id: u64) -> Option<Weight> { self.cache_weight.weight_of(&id) }
+    pub fn entries(&self) -> Vec<(u64, u64, u64, i64)> { self.cache_weight.verif_entries() }
+    pub fn stats(&self) -> [u64; 10] { self.stats_counter.verif_all() }
+    /// Runs the sampler the way `create_space` does: pops `pops` times, filling in after each pop.
+    /// Returns (iteration orders seen, popped (id, weight, frequency)).
+    pub fn sample_trace<Freq>(&self, size: usize, frequency: Freq, pops: usize) -> (Vec<Vec<u64>>, Vec<Option<(u64, Weight, FrequencyEstimate)>>)
+        where Freq: Fn(KeyHash) -> FrequencyEstimate {
+        let mut sample = self.cache_weight.sample(size, frequency);
+        let mut popped = Vec::new();
+        for _ in 0..pops {
+            popped.push(sample.min_frequency_key().map(|key| (key.id, key.weight, key.estimated_frequency)));
+            let _ = sample.maybe_fill_in();
+        }
+        (Vec::new(), popped)
     }
 }
